@@ -26,7 +26,7 @@ def run(prop, replay=None):
     v.assumptions = ["virtual clock (hook H8) replaces Instant::now() inside the token bucket", "request times in whole milliseconds"]
     w = workdir("rl")
     base = 'CONSTANTS Clients = {"a","b"} Rates = %s Bursts = %s Cap = %d Steps = {250, 500, 1000} MaxReq = %d MaxTime = %d\nINIT Init\nNEXT Next\n'
-    r = need_ok(tlc_cfg("_mc.cfg", base % ("{0,2}", "{0,1,2}", 1, 4 if quick else 6, 1500 if quick else 3000) + "INVARIANT Bound\nCHECK_DEADLOCK FALSE\n", "RateLimitMC", "mc", workers=8 if quick else 14, timeout=3000), "MC Bound")
+    r = need_ok(tlc_cfg("_mc.cfg", base % ("{0,2}", "{0,1,2}", 1, 4 if quick else 5, 1500 if quick else 2000) + "INVARIANT Bound\nCHECK_DEADLOCK FALSE\n", "RateLimitMC", "mc", workers=8 if quick else 14, timeout=3000), "MC Bound")
     v.add_tlc(r, "MC Bound over all sequences")
     v.checker_cmds.append("tlc RateLimitMC.tla")
     cases = []
